@@ -153,6 +153,11 @@ let composite_ops = ["Sqrt"; "Cbrt"; "Exp"; "Ln"; "Log10"; "Pow"; "Ceil"; "Floor
 
 let rec nat_of_int n = if n <= 0 then O else S (nat_of_int (n - 1))
 
+let str_of_hex (h : string) : z list =
+  if h = "-" then [] else
+  let n = String.length h / 2 in
+  List.init n (fun i -> z_of_int (hexval h.[2*i] * 16 + hexval h.[2*i+1]))
+
 (* ---------- BigInt programs ---------- *)
 let z_of_big_dec (s : string) : z =
   (* arbitrary-length decimal, optional sign *)
@@ -236,6 +241,33 @@ let judge_line (line : string) =
              corr_full k oT
          | _ -> [z_of_int 99]) in
       report line (corr @ codes)
+  | ["fm"; d], rhs when List.length rhs = 27 ->
+      let (outs, back) = split_at "|" rhs in
+      bump opcount "Format"; Hashtbl.replace nontrivial d ();
+      report line (judge_format (dec_req d) (List.map str_of_hex outs) (List.map (fun t -> if t = "err" then None else dec_of_token t) back))
+  | ["ps"; h], rhs ->
+      let (a, b) = split_at ";" rhs in
+      bump opcount "Parse";
+      let res = (match a with ["ok"; d; c] -> Hashtbl.replace nontrivial h (); Some (dec_req d, z_of_dec_string c) | _ -> None) in
+      report line (judge_parse (str_of_hex h) res (List.for_all (fun x -> x = "1") b))
+  | ["fv"; d; fl; w; verb], [out] ->
+      bump opcount "FormatVerb"; Hashtbl.replace nontrivial (String.concat " " lhs) ();
+      let f = int_of_string fl in
+      let flags = { fl_plus = (f land 8 <> 0); fl_space = (f land 4 <> 0); fl_minus = (f land 2 <> 0); fl_zero = (f land 1 <> 0);
+                    fl_width = (if w = "-" then None else Some (z_of_dec_string w)) } in
+      report line (judge_format_verb (dec_req d) flags (z_of_int (Char.code verb.[0])) (str_of_hex out))
+  | ["cd"; d], [r] ->
+      bump opcount "ComposeDecompose"; Hashtbl.replace nontrivial d ();
+      report line (judge_compose (dec_req d) (if r = "err" then None else dec_of_token r))
+  | ["cs"; p; emax; emin; traps; rnd; h], rhs ->
+      bump opcount "CtxSetString";
+      let c = mkCtx (z_of_dec_string p) (z_of_dec_string emax) (z_of_dec_string emin)
+                (cond_of_Z (z_of_dec_string traps)) (rounder_of_token rnd) in
+      let res = (match rhs with
+                 | ["ok"; d; cnd; er] -> Hashtbl.replace nontrivial (String.concat " " lhs) ();
+                     Some ((dec_req d, z_of_dec_string cnd), err_of_token er)
+                 | _ -> None) in
+      report line (judge_ctx_set_string c (str_of_hex h) res)
   | ["i6"; d], [v; dpost] ->
       bump opcount "Int64"; if v <> "err" then Hashtbl.replace nontrivial d ();
       report line (judge_int64 (dec_req d) (if v = "err" then None else Some (z_of_big_dec v)) (dec_req dpost))
